@@ -12,8 +12,8 @@ SPEC = {
     "sub": "c13",
     "lean_modules": ["TrustVerif.Props.C13"],
     "tiers": {
-        "quick": {"cases": 200, "extra": {"steps": 25}},
-        "thorough": {"cases": 3000, "extra": {"steps": 35}},
+        "quick": {"cases": 180, "extra": {"steps": 25, "lsp": 40, "jobs": 4}},
+        "thorough": {"cases": 3000, "extra": {"steps": 35, "lsp": 600, "jobs": 4}},
     },
     "search_factor": 4,
     # The compared `impl`/`m` lines are the three file-set views of the Database (verif_views hook), i.e.
@@ -34,7 +34,15 @@ SPEC = {
             "project-level query, edit or remove another file; remove and re-add the lowest-id file; a project-level "
             "sweep of diagnostics/analyze/type_of after the operations, also on the still empty project); every history "
             "ends with a sweep of all kinds over all files and an unknown file "
-            "in random order. Every 5th case is a Project-layer history (keys instead of ids). non-trivial = a query "
+            "in random order. Every 5th case is a Project-layer history (keys instead of ids; also the three project "
+            "calls of rename_document, incl. old = new). After them 40 (quick) / 600 (thorough) LSP SESSIONS with the real "
+            "trust-lsp binary over stdio on a 2-6 file workspace without duplicate global names: didOpen / didChange / "
+            "didSave+didClose, willRenameFiles + didRenameFiles (ordinary, and aliasing renames between spellings of one "
+            "file: %2E, a symlinked directory, both; open and closed documents), didCreateFiles / didDeleteFiles + "
+            "didChangeWatchedFiles, external edits; judged at the end and once in the middle against a FRESH server on "
+            "the same directory that got one didOpen per open buffer (pull diagnostics, documentSymbol, 8 hovers per "
+            "file); the first two sessions are fixed (aliasing-rename regression case, witness of "
+            "C13-lsp-symlink-stale-key). non-trivial = a query "
             "was answered before a later edit AND a file was removed at some point AND a file remains at the end (db stream), or a key "
             "was removed and re-added (proj stream); distinct = by hash of the case's operation lines",
     "trusted_base": [
@@ -53,6 +61,8 @@ SPEC = {
         "(prepare_salsa_project) is proved to be a no-op on every reachable state",
         "Rust harness vharness c13: generator, canonical dump of answers, PartialEq of the real answer types, "
         "catch_unwind; the final texts of a history are tracked by the harness, not read back from the database",
+        "trust-lsp binary built from the same tree with the hook feature; stdio JSON-RPC client copied from harness/src/c14.rs; "
+        "the hook request trust-lsp/verifDocumentText is used only as a barrier after notifications",
         "the fresh database of the oracle lives in the harness process: state outside the Database object would be "
         "shared with it. Guarded by (a) a fail-closed scan that trust-hir/trust-syntax contain no static with interior "
         "mutability / thread_local!, (b) a sample of answers (60 quick / 500 thorough) recomputed by `vharness c13 "
@@ -98,11 +108,39 @@ MANIFEST = {
                   "(C13-enum-next-value-overflow, found by the constant-expression stream, fixed in /repo by 0bd32a4; the "
                   "witness is replayed on every run as a regression case, Lean: c13_enum_values_no_overflow); any panic "
                   "is a violation. "
+                  "Third layer (crates/trust-lsp/src/state/documents.rs, an anchor file): TESTED only, by the fresh-server "
+                  "oracle over stdio; its rename is modelled at the Project layer (projRename = remove old, remove new, set "
+                  "new, on canonical keys) and proved: c13_project_view_rename (view theorem over set/remove/query/rename), "
+                  "c13_alias_rename_keeps_text. Not modelled there: the documents map, is_open, ensure_document, the index "
+                  "cache, URI canonicalisation - where the open known finding C13-lsp-symlink-stale-key lives (a file known "
+                  "through a symbolic link keeps its symbols in the project after it is deleted or renamed away: the key is "
+                  "recomputed from a path that can no longer be canonicalised); generated histories rename such a file back "
+                  "to its canonical URI first, the witness is replayed on every run. Closing a dirty buffer and deleting an "
+                  "open file are not generated (C14 covers the document text); every disk change is reported by the watcher. "
                   "Proved for the Project layer: c13_project_view (texts by key are right), c13_project_db_fresh "
                   "(answers equal a fresh Database given the same ids).",
 }
 
+LSP_TARGET = os.path.join(vlib.BUILD, "lsp")
+LSP_BIN = os.path.join(LSP_TARGET, "debug", "trust-lsp")
+
+
+def build_lsp():
+    """Build step of the third layer (fail closed), as in checks/c14.py: the `trust-lsp` binary is rebuilt
+    from the tree the harness is built against (vlib.repo_root()), with the hook, into <checkout>/.build/lsp."""
+    manifest = os.environ.get("VERIF_REPO_MANIFEST") or os.path.join(vlib.repo_root(), "Cargo.toml")
+    cmd = ["cargo", "build", "--offline", "--quiet", "--manifest-path", manifest, "-p", "trust-lsp",
+           "--features", "verif-hooks", "--target-dir", LSP_TARGET]
+    rc, log = vlib.sh(cmd, timeout=3600)
+    if rc != 0 or not os.path.exists(LSP_BIN):
+        raise RuntimeError("trust-lsp does not build: " + log[-1200:])
+
+
+SPEC["translators"] = [build_lsp]
+
 KNOWN_SIG = "project-readd-id-order"
+KNOWN_LSP_TAG = "known-symlink-stale-key"
+KNOWN_LSP_SIG = "lsp-symlink-stale-key"
 # known panics: (signature in known_findings.json, substrings that must all occur in the panic message)
 KNOWN_PANICS = [
     # ("panic:collector/types.rs:attempt to add with overflow", ("collector/types.rs", "attempt to add with overflow")),
@@ -159,6 +197,38 @@ def _details(lines):
             out[f"only_{k}"] = [x[:300] for x in b if x not in sa][:12]
             if not out[f"only_incremental(vs {k})"] and not out[f"only_{k}"]:
                 out[f"order_differs({k})"] = True
+    return out
+
+
+def _lsp_history(c, upto):
+    out = []
+    for l in c.lines[: upto + 1]:
+        if l.startswith("#l "):
+            w = l.split()
+            if w[1] in ("disk", "change", "create", "extedit") and len(w) > 3:
+                out.append(f"{w[1]} {w[2]} {_decode(w[3], 300)!r}")
+            else:
+                out.append(l[3:])
+    return out
+
+
+def _lsp_details(lines):
+    import json
+    raw = {}
+    for x in lines:
+        if x.startswith("#X "):
+            w = x.split()
+            raw[w[1]] = _decode(w[2] if len(w) > 2 else "", 10 ** 6)
+    out = {}
+    for k, v in raw.items():
+        try:
+            j = json.loads(v)
+            if isinstance(j, dict) and "items" in j:
+                out[k] = [f"{i.get('code')} {i.get('range', {}).get('start')} {i.get('message')}" for i in j["items"]][:20]
+                continue
+        except ValueError:
+            pass
+        out[k] = v[:1500]
     return out
 
 
@@ -264,6 +334,7 @@ def extra(ctx):
     fails, known_hits, n_o, n_p = [], [], 0, 0
     failures = []
     known_panics = {}
+    n_l, lsp_known, lsp_failed_cases = 0, 0, set()
     proj = {"queries": 0, "with_permuted_ids": 0, "differs_from_fresh_same_ids": 0,
             "differs_from_fresh_key_order": 0}
     witness_reproduced = False
@@ -288,6 +359,25 @@ def extra(ctx):
                          "repeated query returned a different answer")
                 fails.append({"case": c.n, "seed": ctx["seed"], "tier": ctx["tier"], "layer": "Database",
                               "what": which, "query": l[3:], "history": _history(c, i), "answers": detail})
+            elif l.startswith("#L "):
+                n_l += 1
+                if not l.rstrip().endswith(" FAIL") and " FAIL " not in l:
+                    continue
+                if KNOWN_LSP_TAG in c.tags and any(k.get("match") == KNOWN_LSP_SIG for k in vlib.known_findings("C13")):
+                    lsp_known += 1
+                    continue
+                if c.n in lsp_failed_cases:
+                    continue
+                lsp_failed_cases.add(c.n)
+                w = l.split()
+                what = ("the server stayed silent twice (transport)" if "transport" in w else
+                        f"{w[4] if len(w) > 4 else '?'} request for {w[2] if len(w) > 2 else '?'} got no answer within the "
+                        "timeout (a handler that panicked leaves the server silent)" if "no-answer" in w else
+                        f"{w[4] if len(w) > 4 else '?'} of {w[2] if len(w) > 2 else '?'} differs from a FRESH server "
+                        "started on the same on-disk + open state")
+                fails.append({"case": c.n, "seed": ctx["seed"], "tier": ctx["tier"], "layer": "LSP documents",
+                              "what": what, "query": l[3:], "history": _lsp_history(c, i),
+                              "answers": _lsp_details(c.lines[i + 1: i + 3])})
             elif l.startswith("#p "):
                 n_p += 1
                 f = _fields(l)
@@ -335,6 +425,9 @@ def extra(ctx):
         entry = [k for k in vlib.known_findings("C13") if k.get("match") == sig][0]
         known.append(f"{entry['id']}: {entry['what']} [{count} queries in this run; recorded witness "
                      f"{'reproduces' if on_witness else 'did NOT reproduce'}]")
+    if lsp_known:
+        entry = [k for k in vlib.known_findings("C13") if k.get("match") == KNOWN_LSP_SIG][0]
+        known.append(f"{entry['id']}: {entry['what']} [recorded witness reproduces: {lsp_known} answers differ]")
     # the in-process oracle's blind spot: state outside the Database object
     try:
         hits = purity_scan()
@@ -349,6 +442,7 @@ def extra(ctx):
     cov = {"oracle_queries_database_layer": n_o, "oracle_queries_project_layer": n_p, "project_layer": proj,
            "project_witness_reproduced": witness_reproduced,
            "known_panics": {k: v[0] for k, v in known_panics.items()},
+           "oracle_judgements_lsp_layer": n_l, "lsp_cases_with_failed_judgement": len(lsp_failed_cases),
            "oracle_queries_rechecked_in_a_new_process": asked,
            "stateful_statics_in_trust_hir_and_trust_syntax": hits}
     return {"coverage": cov, "oracle_failures": fails, "known": known, "failures": failures}
